@@ -1,5 +1,5 @@
 CONSTANTS MaxMsgs = ${MaxMsgs}  MaxBlocks = ${MaxBlocks}  Alphabet = "${Alphabet}"  Roles = "${Roles}"
-          Bases = ${Bases}  MaxDev = ${MaxDev}  OnlyBases = ${OnlyBases}  DevAnywhere = ${DevAnywhere}
+          Bases = ${Bases}  MaxDev = ${MaxDev}  OnlyBases = ${OnlyBases}  DevAnywhere = ${DevAnywhere}  WalkLen = ${WalkLen}
 SPECIFICATION GSpec
 INVARIANT GExport
 CHECK_DEADLOCK FALSE
